@@ -9,19 +9,19 @@ run agent2-C13 ipv4
 run agent2-C17 header_decoder
 run agent-C14 c14_n2_p1
 run agent-C08 error_code_all_pairs
-run agent2-C12 c12_software
+run agent2-C16 c16_
+run agent2-C11 c11_
 run agent-C05 poll_one
 run agent-C06 c06_poll_one
 run agent-C07 send_step_sha256
 run agent-C18 poll_one
 run agent2-C15 handle_step
 run agent2-C20 configure
-run agent2-C04 validate_record
+run agent2-C12 c12_software
+run agent2-C09 verdict_32
 run agent-C02 iter_32
 run agent2-C03 iter_32
-run agent2-C09 verdict_32
 run agent2-C01 inspect_32
 run agent-C10 tail_36
-run agent2-C11 c11_rules
-run agent2-C16 c16_
+run agent2-C04 validate_record_44 thorough
 echo DONE >> out/seedall.log
